@@ -44,6 +44,9 @@ type Node struct {
 	Tmpl    []Node   `json:"tmpl"`
 	Entries [][]Node `json:"entries"`
 	Items   []Node   `json:"items"`
+	// Zone (seconds east of UTC, harness side only, never in the JSON): a time-typed leaf built through a constructor or
+	// setter is given a time.Time in this fixed zone whose clock reading is Txt.
+	Zone int `json:"-"`
 }
 
 // MarshalJSON writes exactly the fields of the node's kind (the TLA+ side accesses
@@ -240,6 +243,10 @@ func MakeValue(n *Node) (fix.Value, error) {
 	tv, err := typed(n.Ty, txt)
 	if err != nil {
 		return nil, fmt.Errorf("case value %q not of type %s: %v", txt, n.Ty, err)
+	}
+	if n.Ty == "time" && n.Zone != 0 {
+		t := tv.(time.Time)
+		tv = time.Date(t.Year(), t.Month(), t.Day(), t.Hour(), t.Minute(), t.Second(), t.Nanosecond(), time.FixedZone("", n.Zone))
 	}
 	if via == "new" {
 		switch n.Ty {
